@@ -305,6 +305,35 @@ func cmdCheck(args []string) int {
 		}
 	}
 	res := vc.SolveAll(claimedObs, opts)
+	// an obligation that was not decided (timeout / unknown, no counterexample) is tried again with
+	// other solver seeds and twice the time before it is reported: solver search is not deterministic
+	// under load, and a timeout alone is not evidence of a violation
+	retried := 0
+	if *tier == "quick" {
+		var again []*vc.Obligation
+		for _, ob := range claimedObs {
+			if r := res[ob]; r.Status != "unsat" && r.Status != "sat" {
+				again = append(again, ob)
+			}
+		}
+		for attempt := 1; attempt <= 2 && len(again) > 0 && len(again) <= 40; attempt++ {
+			o2 := opts
+			o2.Seed = opts.Seed + attempt*7
+			o2.TimeoutSec = opts.TimeoutSec * 2
+			o2.FirstTimeout = opts.TimeoutSec
+			r2 := vc.SolveAll(again, o2)
+			var still []*vc.Obligation
+			for _, ob := range again {
+				retried++
+				if r := r2[ob]; r.Status == "unsat" || r.Status == "sat" {
+					res[ob] = r
+				} else {
+					still = append(still, ob)
+				}
+			}
+			again = still
+		}
+	}
 	if len(otherObs) > 0 {
 		o2 := opts
 		o2.TimeoutSec, o2.FirstTimeout, o2.AllAgree = 4, 4, false
@@ -536,6 +565,7 @@ func cmdCheck(args []string) int {
 			"known_findings":  knownLines,
 			"vacuity_guards_not_refuted_but_no_model_found": coverNotRefuted,
 			"obligation_queries_of_other_kinds_not_decided_here": otherKinds,
+			"queries_retried_with_other_seeds":                 retried,
 			"decided_clauses": plan.Decided,
 			"not_decided":     plan.NotDecided,
 			"assumption_scan": scanAssumptions(c),
